@@ -4,7 +4,7 @@
 From Coq Require Import List Arith ZArith Sorted.
 From GM Require Import Base.Res Base.StrItp Model.Itp Model.Topology Model.TopHeap
   Proofs.ItpSpec Proofs.TopologyGraph Proofs.TopHeapProofs Proofs.TopologyParse Proofs.TopologyExample Proofs.TopologyLoad.
-From GM Require Import Gen.ItpGen Proofs.ItpGenEq.
+From GM Require Import Gen.ItpGen Proofs.ItpGenEq Gen.WalkGen Proofs.WalkGenEq.
 Import ListNotations.
 
 (* Reading.  `file_denotes ls t` (Proofs/TopologyParse.v) says that the lines ls CARRY the topology t under any
@@ -108,6 +108,21 @@ Print Assumptions C15_copy_independent.
 Theorem C15_model_is_source_line : forall l : str, parse_itp_line_gen l = parse_itp_line l.
 Proof. exact parse_itp_line_gen_eq. Qed.
 Print Assumptions C15_model_is_source_line.
+
+(* the model is the source (DESIGN.md 4.6): Gen/WalkGen.v is re-translated from the text of are_connected and
+   _find_connected_atoms in gaddlemaps/components/__init__.py at every run (harness/pytrans_walk.py), in Python's own
+   orientation (append and pop at the END of `stack` and `connected`).  The loop as written in the source computes, from any
+   start atom, any list already collected and with any fuel, the reverse of what the model's walk computes, and
+   are_connected as written in the source IS the model's are_connected, to which C15_connected applies. *)
+Theorem C15_model_is_source_walk : forall (fuel : nat) (adj : list (list nat)) (index : nat) (mc : list nat),
+  find_connected_atoms_gen fuel adj index (rev mc) = rmap (@rev nat) (walk fuel adj [index] mc).
+Proof. exact find_connected_atoms_gen_eq. Qed.
+Print Assumptions C15_model_is_source_walk.
+
+Theorem C15_model_is_source_connected : forall adj : list (list nat),
+  are_connected_gen (walk_fuel adj) adj = are_connected adj.
+Proof. exact are_connected_gen_eq. Qed.
+Print Assumptions C15_model_is_source_connected.
 
 (* non-vacuity of C15_parse_render: a concrete decorated text (gapped numbers 7, 12, 40; [ pairs ] before the
    atoms; a repeated [ atoms ]; '+12', '4_0'; a comment glued to the moleculetype fields) meets the hypotheses *)
